@@ -306,6 +306,52 @@ Proof.
   split; [|exact H1]. unfold sig_item. cbn [it_tok it_val it_quoted mk_item]. rewrite H2, sb_str_rev. reflexivity.
 Qed.
 
+(* ---------- {parameters} ---------- *)
+
+Lemma until_close_step : forall f close (l : plex) b,
+  until_close pure_stream (Datatypes.S f) close (l, b) =
+  if negb (l_eof l) && negb (l_ch l =? close)%N then until_close pure_stream f close (rc l, wr (l_ch l) b)
+  else Some (l, b).
+Proof.
+  intros f close l b. unfold until_close. cbn [loop].
+  destruct (negb (l_eof l) && negb (l_ch l =? close)%N); reflexivity.
+Qed.
+
+Lemma until_close_spec : forall f q body r (l : plex) b l1 b1, (q < 128)%N ->
+  at_ l (body ++ q :: r) -> plain_body q body = true ->
+  until_close pure_stream f q (l, b) = Some (l1, b1) -> at_ l1 (q :: r) /\ b1 = rev body ++ b.
+Proof.
+  induction f as [|f IH]; intros q body r l b l1 b1 Hq Hat Hb E; [discriminate E|].
+  rewrite until_close_step in E. destruct body as [|c body].
+  - cbn [app] in Hat. destruct (at_cons_ascii l q r Hat) as (Hch & He & _); [lia|].
+    rewrite He, Hch, N.eqb_refl in E. cbn [negb andb] in E. injection E as <- <-. split; [exact Hat|reflexivity].
+  - cbn [plain_body forallb] in Hb. apply andb_prop in Hb. destruct Hb as [Hc Hb].
+    destruct (at_cons_ascii l c (body ++ q :: r) Hat) as (Hch & He & _ & Hat1); [lia|].
+    rewrite He, Hch in E. replace (c =? q)%N with false in E by lia. cbn [negb andb] in E.
+    rewrite wr_ascii in E by lia.
+    destruct (IH q body r (rc l) (c :: b) l1 b1 Hq Hat1 Hb E) as [H1 H2].
+    split; [exact H1|]. rewrite H2. cbn [rev]. rewrite <- app_assoc. reflexivity.
+Qed.
+
+Lemma param_ok : forall body r f it l', plain_body 125 body = true ->
+  next_token pure_stream f (st_at ((123%N :: body ++ [125%N]) ++ r)) = Some (it, l') ->
+  sig_item it = (T_PARAM, body, false) /\ at_ l' r.
+Proof.
+  intros body r f it l' Hb E. destruct f as [|f]; [discriminate E|].
+  cbn [app] in E. rewrite <- app_assoc in E. cbn [app] in E.
+  pose proof (at_st (123%N :: body ++ 125%N :: r)) as Hat. set (l := st_at (123%N :: body ++ 125%N :: r)) in *.
+  destruct (at_cons_ascii l 123%N _ Hat eq_refl) as (Hc & He & Hs & Hat1).
+  open_token E l Hc He Hs. walk.
+  unfold read_parameter in E.
+  destruct (until_close pure_stream (Datatypes.S f) 125 (rc l, [])) as [[l1 b1]|] eqn:El; [|discriminate E].
+  cbn [bind] in E.
+  destruct (until_close_spec (Datatypes.S f) 125%N body r (rc l) [] l1 b1) as [H1 H2];
+    [lia|exact Hat1|exact Hb|exact El|].
+  destruct (at_cons_ascii l1 125%N r H1 eq_refl) as (Hc1 & _ & _ & Hat2).
+  rewrite Hc1 in E. cbn [N.eqb Pos.eqb] in E. injection E as <- <-.
+  split; [|exact Hat2]. unfold sig_item. cbn [it_tok it_val it_quoted mk_item]. rewrite H2, sb_str_rev. reflexivity.
+Qed.
+
 (* ---------- all covered classes ---------- *)
 
 Theorem tok_ok_next : forall t sg r f it l', tok_ok t sg r ->
@@ -319,5 +365,6 @@ Proof.
   - eapply string_ok; eassumption.
   - eapply dquoted_ok; eassumption.
   - eapply backtick_ok; eassumption.
+  - eapply param_ok; eassumption.
   - eapply op_ok; eassumption.
 Qed.
